@@ -869,6 +869,8 @@ async fn run(prop: &'static str, _tier: Tier) {
     let mut interpreter = XfrResponseInterpreter::new();
     let mut updater: ZoneUpdater = ZoneUpdater::new(secondary.clone()).await.expect("updater");
     let mut delivered: Vec<Vec<u8>> = Vec::new();
+    // Messages handed to the caller after one was rejected as unauthentic.
+    let mut after_rejection: Vec<Vec<u8>> = Vec::new();
     let ex3 = exec.clone();
     let led3 = led.clone();
     // A signed transfer is only authentic once its end has been verified
@@ -948,7 +950,22 @@ async fn run(prop: &'static str, _tier: Tier) {
                     }
                 }
                 Ok(None) => break Ok(()),
-                Err(e) => break Err(format!("{:?}", e)),
+                Err(e) => {
+                    // A caller may go on asking after a message was rejected
+                    // (it must not get unauthenticated data that way): what
+                    // comes afterwards is kept for the oracle.
+                    let text = format!("{:?}", e);
+                    if signed && is_auth_error(&text) && sim::chance("xfr.ask_again_after_rejection", 1, 2) {
+                        sim::stat("probe.asked_again_after_a_rejected_message");
+                        for _ in 0..3 {
+                            match tokio::time::timeout(Duration::from_secs(5), getter.get_response()).await {
+                                Ok(Ok(Some(msg))) => after_rejection.push(msg.as_slice().to_vec()),
+                                _ => break,
+                            }
+                        }
+                    }
+                    break Err(text);
+                }
             }
         };
         if careful && end.is_ok() && apply_err.is_none() {
@@ -988,6 +1005,15 @@ async fn run(prop: &'static str, _tier: Tier) {
     let t = l.tracks.get("xfr").unwrap_or(&empty);
     let seen = walk_str(&walk_zone(secondary.read().as_ref()));
     let label = if ixfr { "ixfr" } else { "axfr" };
+    // (0) nothing unauthenticated comes out after a rejection either: a
+    // message handed on then must be one the server sent, unmodified.
+    for d in &after_rejection {
+        let genuine = t.clean.iter().any(|(_, b)| same_message(b, d));
+        if !genuine {
+            sim::violation(prop, "soundness", format!("message-accepted-after-a-rejected-one/{}", label), format!("after a message of the signed transfer had been rejected, get_response() handed out {} octets that no unmodified server message matches", d.len()));
+            return;
+        }
+    }
     // (1) a transfer that ended cleanly handed on what the server sent, in
     // order. (Before the end is verified, messages that looked unsigned have
     // been handed on without anything vouching for them.)
